@@ -38,5 +38,5 @@ TEXT = dict(
     design_ref="DESIGN.md §3-A, §4 C03",
     technique="property-based testing (rapid) of crash-heavy generated schedules over real raft.Node replicas; invariant (leader completeness against the set of handed-out entries) + differential (storage object vs shadow log built from the durable record / the Ready stream) + bounded convergence after a deterministic heal phase; plus generated Ready values through the REAL raftNode.processReady (recording WAL and transport) checked for its two ordering rules: nothing is sent by a non-leader, and nothing the Ready still has to write is handed to the apply loop, before the WAL save",
     level_text="Generated-schedule exploration with drawn crash points (not enumerated). committed := handed out by anyone. Checked: (1) every replica first observed as leader of term t holds every entry handed out by a replica whose term was below t (snapshot may cover a prefix); (2) after every restart the new storage object answers FirstIndex/LastIndex/Term/Entries/InitialState/Snapshot exactly as the replayed durable record says, and a RocksStorage matches the shadow log after every completed step (cached first/last index, overwrite-and-delete-tail); (3) after the heal phase every live member of the final configuration was handed every committed entry unchanged; a cluster that is stuck is a violation, one that is merely slow is counted inconclusive. A replica that cannot restart from its own durable record is a violation. Held on everything explored outside the excluded triggers; no absence claim.",
-    level_note="Five genuine violations found by this check on the pinned tree are repaired in /repo (single-voter apply-before-WAL, restarted learner refusing snapshots, RocksStorage stale tail, WAL replay resurrecting a truncated suffix, and C02's commit by a non-leader); one stays open (C03-promoted-learner-ignores-votes: its upstream repair contradicts the "learners never vote" clause of C01) and is recognised by its signature in the heal verdict. Not modelled: real files/fsync (C05), engine-level partial loss of a RocksStorage engine between 'intact' and 'empty', optimized_fsync mode.",
+    level_note="Five genuine violations found by this check on the pinned tree are repaired in /repo (single-voter apply-before-WAL, restarted learner refusing snapshots, RocksStorage stale tail, WAL replay resurrecting a truncated suffix, and C02's commit by a non-leader); one stays open (C03-promoted-learner-ignores-votes: its upstream repair contradicts the clause of C01 that learners never vote) and is recognised by its signature in the heal verdict. Not modelled: real files/fsync (C05), engine-level partial loss of a RocksStorage engine between 'intact' and 'empty', optimized_fsync mode.",
 )
